@@ -106,7 +106,8 @@ Fixpoint node_pop (h : nat) (n : node) : option (A * node * bool) :=
 (* ---- Node::truncate *)
 Fixpoint node_truncate (h : nat) (n : node) (len : nat) : option node :=
   match h, n with
-  | 0, Leaf data => Some (Leaf (firstn len data))
+  | 0, Leaf data =>
+      if len <=? length data then Some (Leaf (firstn len data)) else None   (* Chunk::drop_right *)
   | S h', Interior ch =>
       let m := B ^ h in
       let full := len / m in
@@ -121,7 +122,7 @@ Fixpoint node_truncate (h : nat) (n : node) (len : nat) : option node :=
             end
         | None => None
         end
-      else Some (Interior (firstn full ch))
+      else if full <=? length ch then Some (Interior (firstn full ch)) else None
   | _, _ => None
   end.
 
@@ -257,69 +258,83 @@ Definition viter_from (v : vec) (idx : nat) : option (list A) :=
        | None => None
        end.
 
-(* ---- Extend.  The iterator is a list; [take k] consumes a prefix.  [extend_rec] returns the
-   new children, the rest of the iterator, and the number of elements consumed. *)
-Fixpoint chunks_into (fuel room : nat) (it : list A) : list node * list A :=
-  (* while !node.is_full() && iter.peek().is_some(): push a leaf of up to B elements *)
-  match fuel with
-  | 0 => ([], it)
-  | S f =>
-      match room, it with
-      | 0, _ => ([], it)
-      | _, [] => ([], it)
-      | S room', _ =>
-          let (more, rest) := chunks_into f room' (skipn B it) in
-          (Leaf (firstn B it) :: more, rest)
+(* ---- Extend.  The iterator is a list; [take k] consumes a prefix ([firstn]/[skipn]).
+
+   Both [while !node.is_full() && iter.peek().is_some() { node.push_back(<new child>) }] loops of
+   [extend_rec] are instances of [fill_loop]: [room] is [N - node.len()], [step] builds one new
+   child from the iterator and returns what is left of it.  [None] = panic. *)
+Fixpoint fill_loop (step : list A -> option (node * list A)) (room : nat) (it : list A)
+  : option (list node * list A) :=
+  match room, it with
+  | 0, _ => Some ([], it)                        (* node.is_full() *)
+  | _, [] => Some ([], it)                       (* iter.peek().is_none() *)
+  | S room', _ =>
+      match step it with
+      | Some (c, it1) =>
+          match fill_loop step room' it1 with
+          | Some (more, rest) => Some (c :: more, rest)
+          | None => None
+          end
+      | None => None
       end
   end.
 
+(* [let data: Chunk<T, N> = iter.take(N).collect(); node.push_back(Leaf { data })] *)
+Definition leaf_step (it : list A) : option (node * list A) :=
+  Some (Leaf (firstn B it), skipn B it).
+
+(* [extend_rec(iter, node, height)]: returns the node's new children and the rest of the iterator
+   (the Rust function returns the number of consumed elements, which is the difference of the
+   iterator lengths; see [vextend_loop]). *)
 Fixpoint extend_rec (h : nat) (ch : list node) (it : list A) {struct h} : option (list node * list A) :=
   match h with
   | 0 => None                                    (* debug_assert!(height >= 1) *)
-  | 1 =>
-      let '(ch1, it1) :=
-        match last_opt ch with
-        | Some (Leaf data) =>
-            let k := B - length data in
-            (Some (list_set ch (length ch - 1) (Leaf (data ++ firstn k it))), skipn k it)
-        | Some (Interior _) => (None, it)        (* unreachable!() *)
-        | None => (Some ch, it)
-        end in
-      match ch1 with
-      | Some ch1 =>
-          let (more, rest) := chunks_into (B + 1) (B - length ch1) it1 in
-          Some (ch1 ++ more, rest)
-      | None => None
-      end
   | S h' =>
-      let r1 :=
-        match last_opt ch with
-        | Some (Interior sub) =>
-            match extend_rec h' sub it with
-            | Some (sub', it1) => Some (list_set ch (length ch - 1) (Interior sub'), it1)
-            | None => None
-            end
-        | Some (Leaf _) => None                  (* unreachable!() *)
-        | None => Some (ch, it)
-        end in
-      match r1 with
-      | Some (ch1, it1) =>
-          (fix fill (fuel : nat) (ch : list node) (it : list A) : option (list node * list A) :=
-             match fuel with
-             | 0 => Some (ch, it)
-             | S f =>
-                 if (length ch <? B) && (match it with [] => false | _ => true end) then
-                   match extend_rec h' [] it with
-                   | Some (sub, it') => fill f (ch ++ [Interior sub]) it'
-                   | None => None
-                   end
-                 else Some (ch, it)
-             end) (B + 1) ch1 it1
-      | None => None
+      match h' with
+      | 0 =>                                     (* height == 1: children are leaves *)
+          match last_opt ch with
+          | Some (Leaf data) =>
+              let k := B - length data in
+              let ch1 := list_set ch (length ch - 1) (Leaf (data ++ firstn k it)) in
+              match fill_loop leaf_step (B - length ch1) (skipn k it) with
+              | Some (more, rest) => Some (ch1 ++ more, rest)
+              | None => None
+              end
+          | Some (Interior _) => None            (* unreachable!() *)
+          | None =>
+              match fill_loop leaf_step (B - length ch) it with
+              | Some (more, rest) => Some (ch ++ more, rest)
+              | None => None
+              end
+          end
+      | S _ =>
+          let step := fun it0 => match extend_rec h' [] it0 with
+                                 | Some (sub, it1) => Some (Interior sub, it1)
+                                 | None => None
+                                 end in
+          match last_opt ch with
+          | Some (Interior sub) =>
+              match extend_rec h' sub it with
+              | Some (sub', it1) =>
+                  let ch1 := list_set ch (length ch - 1) (Interior sub') in
+                  match fill_loop step (B - length ch1) it1 with
+                  | Some (more, rest) => Some (ch1 ++ more, rest)
+                  | None => None
+                  end
+              | None => None
+              end
+          | Some (Leaf _) => None                (* unreachable!() *)
+          | None =>
+              match fill_loop step (B - length ch) it with
+              | Some (more, rest) => Some (ch ++ more, rest)
+              | None => None
+              end
+          end
       end
   end.
 
-(* top-level loop of [Extend::extend]; fuel bounds the number of added levels *)
+(* top-level loop of [Extend::extend]; the fuel bounds the number of iterations (every iteration
+   but possibly the first consumes at least one element); running out of fuel is [None] *)
 Fixpoint vextend_loop (fuel : nat) (v : vec) (it : list A) : option vec :=
   match it with
   | [] => Some v
